@@ -5,7 +5,10 @@
 package main
 
 import (
+	"fmt"
+	"io"
 	"os"
+	"strings"
 
 	"github.com/pentops/j5/internal/verifh/vh"
 )
@@ -17,8 +20,24 @@ func main() {
 		probeMain(os.Args[2:])
 		return
 	}
+	if len(os.Args) > 1 && os.Args[1] == "render" {
+		// pipeh render < op : print the j5s text of a chain op (development aid)
+		b, _ := io.ReadAll(os.Stdin)
+		spec, err := DecodeSpec(strings.TrimSpace(string(b)))
+		if err != nil {
+			fmt.Println("bad op:", err)
+			os.Exit(1)
+		}
+		for k, v := range spec.Render() {
+			fmt.Println("#", k)
+			fmt.Println(string(v))
+		}
+		fmt.Println("# expect:", Expect(spec))
+		return
+	}
+	if len(os.Args) > 1 && os.Args[1] == "worker" {
+		workerMain()
+		return
+	}
 	vh.Main("pipe.chain", impl{})
 }
-
-func (impl) Gen(h *vh.H, i int) string   { return "" }
-func (impl) Exec(h *vh.H, op string) string { return "bad-op" }
